@@ -271,8 +271,127 @@ where
     outs.join(",")
 }
 
+/// Consistency of the navigation API with itself, for one node (no model needed): what one accessor
+/// says must be what the others imply.
+fn api_consistency(n: Node) -> Vec<String> {
+    let mut f = Vec::new();
+    // descendants() = the node followed by the descendants of its children, in order
+    fn walk(n: Node, acc: &mut Vec<u32>, budget: &mut usize) {
+        if *budget == 0 {
+            return;
+        }
+        *budget -= 1;
+        acc.push(n.id().get());
+        for c in n.children() {
+            walk(c, acc, budget);
+        }
+    }
+    let mut want = Vec::new();
+    let mut budget = 5000usize;
+    walk(n, &mut want, &mut budget);
+    if budget > 0 {
+        let got: Vec<u32> = n.descendants().take(5001).map(|x| x.id().get()).collect();
+        if got != want {
+            f.push(format!("descendants() of node {} = {:?} but the children() walk gives {:?}", n.id().get(), &got[..got.len().min(8)], &want[..want.len().min(8)]));
+        }
+        if n.descendants().len() != want.len() {
+            f.push(format!("descendants().len() of node {} is {} but the walk has {}", n.id().get(), n.descendants().len(), want.len()));
+        }
+    }
+    // children(): forward, backward, and the sibling links agree
+    let fwd: Vec<u32> = n.children().map(|x| x.id().get()).collect();
+    let mut bwd: Vec<u32> = n.children().rev().map(|x| x.id().get()).collect();
+    bwd.reverse();
+    if fwd != bwd {
+        f.push(format!("children() of node {} forward {:?} and backward {:?} differ", n.id().get(), fwd, bwd));
+    }
+    let via: Vec<u32> = n.first_child().map(|c| c.next_siblings().map(|x| x.id().get()).collect()).unwrap_or_default();
+    if fwd != via {
+        f.push(format!("children() of node {} and first_child().next_siblings() differ", n.id().get()));
+    }
+    // exhausting one end and then asking the other end gives nothing
+    let mut it = n.children();
+    while it.next().is_some() {}
+    if it.next_back().is_some() {
+        f.push(format!("children() of node {}: next_back() after the iterator was drained by next() yields a node", n.id().get()));
+    }
+    let mut it = n.children();
+    while it.next_back().is_some() {}
+    if it.next().is_some() {
+        f.push(format!("children() of node {}: next() after the iterator was drained by next_back() yields a node", n.id().get()));
+    }
+    let mut it = n.children();
+    let mut seen = 0usize;
+    loop {
+        let a = it.next();
+        let b = it.next_back();
+        seen += a.is_some() as usize + b.is_some() as usize;
+        if a.is_none() && b.is_none() {
+            break;
+        }
+        if seen > fwd.len() + 2 {
+            break;
+        }
+    }
+    if seen != fwd.len() {
+        f.push(format!("children() of node {}: alternating next()/next_back() yields {} items, there are {}", n.id().get(), seen, fwd.len()));
+    }
+    // text() / tail() are functions of the adjacent nodes
+    if n.is_element() {
+        let want = n.first_child().filter(|c| c.is_text()).and_then(|c| c.text());
+        if n.text() != want {
+            f.push(format!("text() of element {} is {:?} but its first child gives {:?}", n.id().get(), n.text(), want));
+        }
+        let want = n.next_sibling().filter(|c| c.is_text()).and_then(|c| c.text());
+        if n.tail() != want {
+            f.push(format!("tail() of element {} is {:?} but its next sibling gives {:?}", n.id().get(), n.tail(), want));
+        }
+        if n.has_children() != n.first_child().is_some() || n.has_children() != !fwd.is_empty() {
+            f.push(format!("has_children() of element {} disagrees with first_child()/children()", n.id().get()));
+        }
+        // attributes(): every way of stepping through them visits each exactly once, in order
+        fn key(a: roxmltree::Attribute) -> (Option<String>, String, String) {
+            (a.namespace().map(|x| x.to_string()), a.name().to_string(), a.value().to_string())
+        }
+        let all: Vec<(Option<String>, String, String)> = n.attributes().map(key).collect();
+        for step in [2usize, 3] {
+            let got: Vec<_> = n.attributes().step_by(step).map(key).collect();
+            let want: Vec<_> = all.iter().cloned().step_by(step).collect();
+            if got != want {
+                f.push(format!("attributes().step_by({}) of element {} visits {:?}", step, n.id().get(), got.iter().map(|x| x.1.clone()).collect::<Vec<_>>()));
+            }
+        }
+        for k in 0..all.len().min(3) {
+            let mut it = n.attributes();
+            let first = it.nth(k).map(key);
+            let rest: Vec<_> = it.clone().map(key).collect();
+            if first != all.get(k).cloned() || rest != all[(k + 1).min(all.len())..].to_vec() || it.len() != all.len().saturating_sub(k + 1) {
+                f.push(format!("attributes().nth({}) of element {} does not consume exactly {} attributes", k, n.id().get(), k + 1));
+            }
+        }
+        let skipped: Vec<_> = n.attributes().skip(1).map(key).collect();
+        if skipped != all[1.min(all.len())..].to_vec() {
+            f.push(format!("attributes().skip(1) of element {} is wrong", n.id().get()));
+        }
+        let mut rev: Vec<_> = n.attributes().rev().map(key).collect();
+        rev.reverse();
+        if rev != all {
+            f.push(format!("attributes().rev() of element {} is wrong", n.id().get()));
+        }
+    }
+    f
+}
+
 pub fn iter_programs(out: &mut String, n: Node, rng: &mut Rng) {
     let i = n.id().get();
+    match std::panic::catch_unwind(|| api_consistency(n)) {
+        Ok(fails) => {
+            for m in fails.iter().take(3) {
+                writeln!(out, "ITX FAIL {}", m).unwrap();
+            }
+        }
+        Err(_) => writeln!(out, "ITX FAIL panic in the navigation API of node {}", i).unwrap(),
+    }
     let node = |x: Option<Node>| match x {
         Some(x) => x.id().get().to_string(),
         None => "-".into(),
